@@ -9,8 +9,8 @@ import hirq, anchors, absx, sem, setfacts
 EXPLANATION = ("Structural rules over the typed HIR of the ID allocator and of every access to the ID table "
                "(Arc<Mutex<(RequestId, HashSet<RequestId>)>>): N1 one lock, every access through that guard; "
                "N2 candidate starts at the stored counter, is reset to 1 exactly when it equals i32::MAX and is "
-               "otherwise incremented by 1, table initialised to (0, empty); N3 the search loop is left only when "
-               "the freshly updated candidate is not in the in-use set; N4 the same candidate is stored, inserted and "
+               "otherwise incremented by 1, table initialised to (0, empty); N3 the search loop is left only on paths whose "
+               "condition entails that the freshly updated candidate is not in the in-use set (found not to be a member, or the set found empty; what the path observed of the set before it first changes it - rules/setfacts.py); N4 the same candidate is stored, inserted and "
                "returned; N5 who-may-touch: counter writes (through any alias of the place: `guard.0`, a destructured or re-borrowed guard) and set inserts only in the allocator - a store in the driver loop is accepted only when its arm's paths show it writes back the counter's own current value -, allocator called only "
                "from the operation issue point whose request tuple carries that value, set removals only in the driver "
                "loop - a `retain` is judged by the removals it amounts to: in the driver loop named IDs only, anywhere else none at all, a predicate about an ID's magnitude being decided against the allocator's own invariant (every member is in 1..=i32::MAX; used only when N2 / N4 / N8 and the other N5 obligations establish it on the analysed tree) -; N6 on every enumerated path of a select! arm a release comes with the un-routing of the same ID (or is the Abandon "
